@@ -1,4 +1,5 @@
 import St4sd.Lemmas.C12
+import St4sd.Model.RestartKill
 /-!
 # C12 — Task restarts stay within the configured policy
 
@@ -553,6 +554,111 @@ example : (exec true cfgNamedHook St.init [hookYes, hookYes, hookYes, hookYes, h
 example : (exec false cfgDefault St.init [hookFailed, hookRaises, hookNo]).map (·.code) =
     [.couldNotInitiate, .couldNotInitiate, .couldNotInitiate] := by decide
 example : effMax ⟨none, true, [], false, false, .fallback⟩ = C12.unlimited := by decide
+
+
+/-! ## kill() before a launch: what the engine reports, and that the task is not started again
+
+`St4sd.RestartKill` (Model/RestartKill.lean): the `self.process` / `self._exitReason` ivars of a plain `Engine`
+through launches, exits, `kill()` and the reset made by `Engine.restart`.  For every history of launches, exits
+and kills, from every engine state without a stale Task object: a `kill()` that finds the engine alive and not
+launched — in the launch delay of the first `run()`, in the launch delay of the `run()` of a restart, or before
+`run()` — is reported as `Killed`, and the task is not started again. -/
+section Kill
+open St4sd.RestartKill
+
+/-- no Task object of an earlier launch is left in `self.process` while a launch is awaited or before `run()` -/
+def KInv (e : Eng) : Prop := (e.pending = true ∨ e.runCalled = false) → e.proc = none
+
+theorem kinv_init : KInv Eng.init ∧ KInv (RestartKill.run Eng.init) := by
+  constructor <;> intro _ <;> rfl
+
+/-- launches, exits and kills keep the invariant -/
+theorem kinv_arrive (e : Eng) (a : Arrival) (h : KInv e) : KInv (arriveEng e a) := by
+  unfold KInv at *
+  cases a with
+  | exits l r =>
+    cases l <;> simp [arriveEng, setExitReason]
+    intro hr; simp [h (Or.inr hr)]
+  | kill =>
+    simp only [arriveEng]
+    split
+    · simp [setExitReason]; intro hr; exact h (Or.inr hr)
+    · split
+      · simpa [setExitReason] using h
+      · exact h
+
+/-- the reset of `Engine.restart` (`self.process = None`) establishes it -/
+theorem kinv_after_decision (e : Eng) (s s' : St) (code : Code) (h : KInv e) :
+    KInv (afterDecision false e s s' code) := by
+  unfold afterDecision
+  split
+  · intro _; rfl
+  · exact h
+
+/-- `kill_before_launch_reports_killed`: a kill that finds the engine alive and not launched is reported as Killed -/
+theorem kill_before_launch_reports_killed (e : Eng) (h : KInv e) (hk : e.killable = true) :
+    (arriveEng e .kill).exitReason = some .killed := by
+  unfold KInv at h
+  unfold Eng.killable at hk
+  simp only [arriveEng]
+  by_cases hp : e.pending = true
+  · simp [hp, setExitReason, h (Or.inl hp)]
+  · simp [hp] at hk
+    simp [hp, hk, setExitReason, h (Or.inr hk.1)]
+
+/-- one step keeps the invariant -/
+theorem kinv_kstep (fin : Bool) (c : Cfg) (s : St) (e : Eng) (k : KInp) (h : KInv e) :
+    KInv (kstep false fin c (s, e) k).1.2 := by
+  unfold kstep
+  exact kinv_after_decision _ _ _ _ (kinv_arrive e k.arrival h)
+
+/-- `killed_before_launch_never_started_again`: in every history of launches, exits and kills, at every `kill()` that
+finds the engine alive and not launched the engine reports Killed, the restart is not initiated and `run()` is not
+called (schema domain of `restartHookOn`; even when the system is reported unstable, whatever the hook says). -/
+theorem killed_before_launch_never_started_again (fin : Bool) (c : Cfg) (hv : schemaValid c = true) (s : St)
+    (e : Eng) (h : KInv e) (ks : List KInp) :
+    ∀ ev ∈ kexec false fin c (s, e) ks, ev.arrival = .kill → ev.killable = true →
+      ev.reported = .killed ∧ ev.code ≠ .initiated ∧ ev.st.runs = ev.runsBefore := by
+  induction ks generalizing s e with
+  | nil => intro ev hev; simp [kexec] at hev
+  | cons k ks ih =>
+    intro ev hev
+    simp only [kexec] at hev
+    rcases List.mem_cons.mp hev with rfl | hev
+    · intro ha hk
+      simp only [kstep] at ha hk ⊢
+      have hrep : (arriveEng e k.arrival).exitReason = some .killed := by
+        rw [ha]; exact kill_before_launch_reports_killed e h hk
+      simp only [hrep, Option.getD_some]
+      have := no_restart_after_kill fin c s
+        { k.inp with reason := .killed, launch := match k.arrival with | .exits l _ => l | .kill => .none } hv (Or.inl rfl)
+      exact ⟨trivial, this.1, this.2⟩
+    · have hi := kinv_kstep fin c s e k h
+      exact ih (kstep false fin c (s, e) k).1.1 (kstep false fin c (s, e) k).1.2 hi ev hev
+
+/-- the same from the engine as it is created (with or without the first `run()`) -/
+theorem killed_before_launch_never_started_again_from_start (fin : Bool) (c : Cfg) (hv : schemaValid c = true)
+    (firstRun : Bool) (ks : List KInp) :
+    ∀ ev ∈ kexec false fin c (St.init, if firstRun then RestartKill.run Eng.init else Eng.init) ks,
+      ev.arrival = .kill → ev.killable = true →
+      ev.reported = .killed ∧ ev.code ≠ .initiated ∧ ev.st.runs = ev.runsBefore := by
+  apply killed_before_launch_never_started_again fin c hv
+  cases firstRun
+  · exact kinv_init.1
+  · exact kinv_init.2
+
+/-! non-vacuity: a restart is initiated, the kill arrives in its launch delay, is reported as Killed and refused;
+in the history-continues mode a later listed exit restarts again -/
+private def cfgExh : Cfg := ⟨none, false, [.resourceExhausted], false, false, .fallback⟩
+private def kI (a : Arrival) : KInp := ⟨a, ⟨.success, .ctx .possible, true, false, true, .task⟩⟩
+example : (kexec false false cfgExh (St.init, RestartKill.run Eng.init)
+    [kI (.exits .task .resourceExhausted), kI .kill, kI (.exits .none .resourceExhausted)]).map
+    (fun ev => (ev.killable, ev.reported, ev.code, ev.st.runs)) =
+    [(true, .resourceExhausted, .initiated, 1), (true, .killed, .couldNotInitiate, 1),
+     (false, .resourceExhausted, .initiated, 2)] := by decide
+example : schemaValid cfgExh = true := by decide
+
+end Kill
 
 /-! non-vacuity of the loader and several-components theorems -/
 private def wEmpty : Written := ⟨none, none, some []⟩
